@@ -3,7 +3,6 @@ lookup by number / by time, SegmentTimeline generation, startNumber, publishTime
 oracle of C01/C02/C04/C05 and bound to the real code by replaying its predictions.
 Property text: top of spec/LiveTimelineImplOps.tla."""
 import json
-import os
 import re
 import vlib
 from vlib import Check, MachineryError
@@ -25,30 +24,29 @@ def run(tier, replay=None):
                      "float result depends on rounding noise (exact end of the served window, x.5 ms roundings) are flagged and not judged",
                      "the 1 us comparison tolerance is transcribed exactly; it is inert for timescales below 10^6/gcd(1000,TS)",
                      "vod0 < loop duration (domain of the oracle's IdxOfStart); one video representation, no stop time, one period",
+                     "ato_inf with a SegmentTimeline URL is a refused configuration (400): fidelity only, no oracle clause",
                      "a negative ?nowMS= is not replayed (model level only)"]
     c.trusted = ["harness/assetgen (layout = ground truth by construction)", "harness/project ParseMedia / ParseMPD (independent parse)",
                  "harness/drive/x03 (URL construction, clamping of absurd values)", "TLC"]
     wk = 4
     # the GEN job gets the seed (thin sample away from the breakpoints)
     gencfg = c.work / f"LiveTimelineImpl_gen_{tier}.cfg"
-    # X03_FIX=1: the repository under test ($VERIF_REPO) carries proposed_fixes/X03-vod0-*.diff - predictions with Fix = TRUE
-    fixed = os.environ.get("X03_FIX", "") == "1"
-    txt = re.sub(r"Seed = \d+", f"Seed = {c.seed % 11}", (vlib.SPEC / "mc" / f"LiveTimelineImpl_gen_{tier}.cfg").read_text())
-    gencfg.write_text(txt.replace("Fix = FALSE", "Fix = TRUE") if fixed else txt)
-    c.extra["repository_with_proposed_vod0_fixes"] = fixed
+    gencfg.write_text(re.sub(r"Seed = \d+", f"Seed = {c.seed % 11}", (vlib.SPEC / "mc" / f"LiveTimelineImpl_gen_{tier}.cfg").read_text()))
     tmo = 600 if tier == "quick" else 1500
     jobs = [(MOD, f"LiveTimelineImpl_{tier}.cfg", dict(workers=wk, timeout=tmo, coverage=False)),
             (MOD, f"LiveTimelineImpl_vod0_{tier}.cfg", dict(workers=wk, timeout=tmo, coverage=False)),
             (MOD, str(gencfg), dict(workers=wk, timeout=tmo, coverage=False)),
-            # the code as written deviates from the oracle for these (open findings): documented counterexamples
+            # history (Fix = FALSE = before 27fa7f8 / 52d2ae2): the vod0 deviations of the code as it was, documented counterexamples;
+            # window_start: the present code (open finding C05-window-start)
             (MOD, "LiveTimelineImpl_cex_vod0_edge.cfg", dict(workers=1, expect="violation", expect_violated=("InvTimelineEdgeAll",), coverage=False)),
             (MOD, "LiveTimelineImpl_cex_vod0_served.cfg", dict(workers=1, expect="violation", expect_violated=("InvListedServedAll",), coverage=False)),
             (MOD, "LiveTimelineImpl_cex_vod0_time.cfg", dict(workers=1, expect="violation", expect_violated=("InvLookupTimeAll",), coverage=False)),
             (MOD, "LiveTimelineImpl_cex_window_start.cfg", dict(workers=1, expect="violation", expect_violated=("ImplPtIdentifies",), coverage=False)),
             # observation (no oracle clause): a sub-ms availability instant right after AST is rounded down to AST
             (MOD, "LiveTimelineImpl_cex_pt_subms.cfg", dict(workers=1, expect="violation", expect_violated=("ImplPtIdentifiesEdgeAll",), coverage=False))]
-    # the proposed fixes (proposed_fixes/X03-vod0-*.diff) transcribed: agreement with the oracle WITHOUT the vod0 restriction
-    jobs.append((MOD, f"LiveTimelineImpl_proposed_vod0_{tier}.cfg", dict(workers=wk, timeout=tmo, coverage=False)))
+    # history: with the restricting predicates the pre-fix transcription agreed with the oracle
+    if tier == "thorough":
+        jobs.append((MOD, "LiveTimelineImpl_hist_vod0_quick.cfg", dict(workers=wk, timeout=tmo, coverage=False)))
     nfix = len(jobs)
     wit = ["NeverGone", "NeverMulti", "NeverRepeat", "NeverClip"]
     jobs += [(MOD, f"LiveTimelineImpl_witness_{w}.cfg", dict(workers=1, expect="violation", expect_violated=(w,), coverage=False)) for w in wit]
@@ -59,11 +57,11 @@ def run(tier, replay=None):
             raise MachineryError(f"model vacuity: {r.distinct} states, depth {r.depth}")
     for r, name in zip(res[3:8], ("InvTimelineEdgeAll", "InvListedServedAll", "InvLookupTimeAll", "ImplPtIdentifies", "ImplPtIdentifiesEdgeAll")):
         if r.status == "ok":
-            c.fidelity.append(f"as-written counterexample {name} no longer found: the code's deviation class may have been fixed - update the model's predicates")
+            c.fidelity.append(f"documented counterexample {name} no longer found by the model")
     for r, name in zip(res[nfix:], wit):
         if name not in r.violated:
             raise MachineryError(f"model vacuity: witness {name} not reached")
-    c.extra["design_counterexamples_code_as_written"] = {"vod0_edge": res[3].violated, "vod0_listed_not_served": res[4].violated,
+    c.extra["design_counterexamples"] = {"vod0_edge": res[3].violated, "vod0_listed_not_served": res[4].violated,
                                                          "vod0_time_lookup": res[5].violated, "window_start_publishTime": res[6].violated,
                                                          "sub_ms_publishTime_rounding": res[7].violated}
     c.exhaustive = True   # over the enumerated configuration sets and sampling schedules
@@ -78,7 +76,7 @@ def run(tier, replay=None):
     drive = vlib.build_harness(cmd="x03")
     trace = c.work / "x03.ndjson"
     nseed = 8 if tier == "quick" else 100
-    st = vlib.run_driver(drive, ["-out", trace, "-work", c.work / "drv", "-gen", genf, "-seed", c.seed, "-n", nseed, "-par", 6] + (["-fix"] if fixed else []))
+    st = vlib.run_driver(drive, ["-out", trace, "-work", c.work / "drv", "-gen", genf, "-seed", c.seed, "-n", nseed, "-par", 6])
     r, lines = c.validate_trace_parallel("LiveTimelineImpl_Trace", trace, chunks=8 if tier == "quick" else 12, timeout=1500)
     events = vlib.read_ndjson(trace)
     hdr_at, cur = {}, None
@@ -114,6 +112,6 @@ def run(tier, replay=None):
               "empty": sum(t["st"] == 200 and not t["S"] for t in tls), "before_ast": sum(t["st"] == 425 for t in tls)}
     c.extra["predicted_status_classes"] = sorted(pst)
     c.extra["predicted_mpd_shapes"] = shapes
-    if not {200, 425, 410, 404, 500} <= pst or not all(shapes.values()):
+    if not {200, 425, 410, 404, 500, 400} <= pst or not all(shapes.values()):
         raise MachineryError(f"replay vacuity: predicted status classes {sorted(pst)}, MPD shapes {shapes}")
     return c.finish()
